@@ -396,6 +396,98 @@ pub mod probe {
     }
 }
 
+// ---------------------------------------------------------------- R-SIBLING.index
+pub mod sib {
+    pub struct T {
+        pub marks: Vec<u64>,
+        pub mask: usize,
+    }
+    impl T {
+        pub fn ok_get(&self, hash: u64) -> u64 {
+            self.marks[(hash as usize) & self.mask]
+        }
+        pub fn ok_put(&mut self, hash: u64) {
+            let i = (hash as usize) & self.mask;
+            self.marks[i] = hash;
+        }
+        pub fn bad_get(&self, hash: u64) -> u64 {
+            self.marks[(hash as usize) & self.mask]
+        }
+        pub fn bad_del(&mut self, hash: u64) {
+            let i = (hash as usize) & self.mask;
+            self.marks[i] = 0;
+        }
+        pub fn bad_put(&mut self, hash: u64) {
+            let n = self.marks.len();
+            self.marks[(hash as usize) % n] = hash;
+        }
+    }
+}
+
+// ---------------------------------------------------------------- R-ARITH.mul
+pub mod arith {
+    use super::*;
+    fn file_size(cap: usize) -> usize {
+        80 + cap * 8
+    }
+    pub fn bad_open(data: &[u8], file_len: usize) -> Result<usize> {
+        if data.len() < 8 {
+            return Err(ZiporaError("short"));
+        }
+        let cap = u64::from_le_bytes([data[0], data[1], data[2], data[3], data[4], data[5], data[6], data[7]]) as usize;
+        let required = file_size(cap);
+        if required > file_len {
+            return Err(ZiporaError("cut short"));
+        }
+        Ok(cap)
+    }
+    pub fn ok_open(data: &[u8], file_len: usize) -> Result<usize> {
+        if data.len() < 8 {
+            return Err(ZiporaError("short"));
+        }
+        let cap = u64::from_le_bytes([data[0], data[1], data[2], data[3], data[4], data[5], data[6], data[7]]) as usize;
+        let required = cap.checked_mul(8).and_then(|b| b.checked_add(80)).ok_or(ZiporaError("overflow"))?;
+        if required > file_len {
+            return Err(ZiporaError("cut short"));
+        }
+        Ok(cap)
+    }
+}
+
+// ---------------------------------------------------------------- R-DIV
+pub mod div {
+    use super::*;
+    pub fn bad_decode(data: &[u8], out: &mut Vec<u8>) -> Result<()> {
+        if data.len() < 4 {
+            return Err(ZiporaError("short"));
+        }
+        let dist = u32::from_le_bytes([data[0], data[1], data[2], data[3]]) as usize;
+        let Some(start) = out.len().checked_sub(dist) else {
+            return Err(ZiporaError("distance"));
+        };
+        for i in 0..4usize {
+            let b = out[start + i % dist];
+            out.push(b);
+        }
+        Ok(())
+    }
+    pub fn ok_decode(data: &[u8], out: &mut Vec<u8>) -> Result<()> {
+        if data.len() < 4 {
+            return Err(ZiporaError("short"));
+        }
+        let dist = u32::from_le_bytes([data[0], data[1], data[2], data[3]]) as usize;
+        if dist == 0 || out.len() < dist {
+            return Err(ZiporaError("distance"));
+        }
+        let start = out.len() - dist;
+        for i in 0..4usize {
+            let b = out[start + i % dist];
+            out.push(b);
+        }
+        Ok(())
+    }
+}
+
 // ---------------------------------------------------------------- R-VARIANT
 pub mod variant {
     pub enum Storage {
